@@ -24,8 +24,8 @@ SUITES = ["history", "behavior", "race"]
 RULE = ("(a) histories: 1-4 registered classes (mode single/session/percall/undecorated/hand-set invalid; creator none/"
         "callable (needing the class argument / also callable without: default arg, *args, functools.partial, a class) /"
         "falsy-callable; truthiness via nothing/__bool__/__len__; __eq__ default/by-class/always-equal+unhashable), "
-        "1-3 Daemon objects in the process serving the SAME classes (alive together, and shut down and replaced by a new Daemon "
-        "mid-history), 1-4 connections, 1-24 events (daemon restart, open with/without keep_open, close, call carrying what the "
+        "optionally inherited from a decorated base class by the registered subclass; 1-3 Daemon objects in the process serving the SAME classes (alive together, and shut down and replaced by a new Daemon "
+        "mid-history), 1-4 connections, 1-24 events (daemon restart, open with/without keep_open, close — also of connections whose socket fails in shutdown(), call carrying what the "
         "constructor/creator does if run: ok truthy|falsy / wrong type / raises ArithmeticError / raises a TypeError from its own "
         "body always or on its first run only), run on the REAL daemons through _getInstance or through handleRequest "
         "with a real INVOKE message, vs the Lean model line by line (result of every call: instance by creation order, "
@@ -82,6 +82,8 @@ def gen_history(rng):
     classes = []
     for _ in range(ncls):
         mode = _pick(rng, [("single", 30), ("session", 30), ("percall", 22), ("default", 10), ("invalid", 8)])
+        if mode != "default" and rng.random() < 0.15:
+            mode += "+sub"            # instancing inherited from a decorated base class; the subclass is what is registered
         creator = _pick(rng, CREATOR_KINDS)
         truth = _pick(rng, [("plain", 25), ("bool", 40), ("len", 35)])
         eq = _pick(rng, [("default", 50), ("byclass", 30), ("alleq", 20)])
@@ -113,6 +115,8 @@ def gen_history(rng):
     h = {"classes": classes, "nconn": nconn, "events": events, "path": "request" if rng.random() < 0.3 else "direct"}
     if ndaemon > 1:
         h["ndaemon"] = ndaemon
+    if rng.random() < 0.3:
+        h["bad_shutdown"] = sorted(rng.sample(range(nconn), rng.randint(1, nconn)))   # peers that reset: shutdown() fails on close
     return h
 
 
@@ -385,7 +389,7 @@ def replay(ctx, case):
             return 1 if bad else 0
         if "events" in c:
             run, obs = run_history(c)
-            print("history", json.dumps({k: c[k] for k in ("classes", "nconn", "ndaemon", "events", "path") if k in c}))
+            print("history", json.dumps({k: c[k] for k in ("classes", "nconn", "ndaemon", "bad_shutdown", "events", "path") if k in c}))
             print("observed", run.canonical())
             bad = R.judge_history(run.flat, obs)
             print(("VIOLATION reproduced: %s — %s" % bad) if bad else "not reproduced (the property holds on this history)")
